@@ -111,7 +111,7 @@ def gen_cases(tier, seed):
         d = _restriction_dataset(rng, nmax if i % 2 else rng.randint(2, nmax), 4)
         yield {"kind": "sample", "dataset": d, "namekind": KINDS[(i + 2) % len(KINDS)], "restriction": True}
     # ---- direct decision kernel ----------------------------------------------------------------------------------
-    for i in range((2000 if quick else 40000) // 100):
+    for i in range((2000 if quick else 80000) // 100):
         yield {"kind": "where", "seed": rng.randrange(1 << 30), "count": 100}
 
 
